@@ -242,9 +242,22 @@ func parenthesisations(atoms, ops []string) []string {
 }
 
 func parseExprWith(text string, params map[string]interface{}) (influxql.Expr, error) {
+	if len(params) == 0 && viaPackageEntry(text) {
+		return influxql.ParseExpr(text)
+	}
 	p := influxql.NewParser(strings.NewReader(text))
 	applyParams(p, text, params)
 	return p.ParseExpr()
+}
+
+// viaPackageEntry chooses, by a hash of the text, the cases that go through the package-level entry points
+// (ParseExpr / ParseStatement / ParseQuery of a string) instead of NewParser(reader).ParseX(): the two are the
+// same function, unless the entry points keep something between calls (round-4 seeded changes: pooled
+// parsers whose rune ring survives, ASTs cached per text).
+func viaPackageEntry(text string) bool {
+	h := fnv.New32a()
+	h.Write([]byte(text))
+	return h.Sum32()%3 == 1
 }
 
 var placeholderNameRe = regexp.MustCompile(`\$"?([A-Za-z0-9_]+)`)
